@@ -346,6 +346,89 @@ def rule_decode_handled(ctx, rep):
         raise AnalysisError("no guarded text-mode manifest read found in the dependency writers / file parsers")
 
 
+def rule_insert_after_terminated(ctx, rep, rule_id="R-INSERT-AFTER-TERMINATED"):
+    """Shared by C03 / C14."""
+    rep.rule(
+        rule_id,
+        "sibling rule over the line-surgery writers (requirements.txt, setup.cfg): where new lines are placed *after* existing lines of the "
+        "manifest (`lines + new`, `lines[:k + 1] + new + lines[k + 1:]`: nothing is dropped between the two slices, so the preceding line may "
+        "be the last line of the file), the line before the insertion is first given a line ending if it has none "
+        "(`if not head[-1].endswith(\"\\n\"): head[-1] += eol`).  A manifest without a final newline otherwise gets `flask    new-package` on "
+        "one line: an invalid requirement, the old one lost, and a diff that shows a separate added line",
+        min_instances=2,
+    )
+    n = 0
+    for fn in ctx.prog.live_functions():
+        if not fn.module.name.startswith("codemodder.dependency_management."):
+            continue
+        r = ctx.resolver(fn)
+
+        def root_list(e):
+            """(list name, upper bound text or None) when e is `X`, `X[:u]` or a once-bound local holding one of them"""
+            e = r.expand(e) if isinstance(e, ast.Name) and e.id in r.single_assignments() and isinstance(r.single_assignments()[e.id], (ast.Subscript, ast.Name)) else e
+            if isinstance(e, ast.Name):
+                return e.id, None
+            if isinstance(e, ast.Subscript) and isinstance(e.slice, ast.Slice) and e.slice.lower is None and isinstance(e.value, ast.Name):
+                return e.value.id, unparse(e.slice.upper) if e.slice.upper is not None else None
+            return None
+
+        def tail_of(e, name):
+            """lower bound text when e is `name[l:]`"""
+            if isinstance(e, ast.Subscript) and isinstance(e.slice, ast.Slice) and e.slice.upper is None and isinstance(e.value, ast.Name) and e.value.id == name and e.slice.lower is not None:
+                return unparse(e.slice.lower)
+            return None
+
+        line_lists = {a.targets[0].id for a in walk_no_nested(fn.node) if isinstance(a, ast.Assign) and len(a.targets) == 1 and isinstance(a.targets[0], ast.Name)
+                      and isinstance(a.value, ast.Call) and (last_attr(a.value.func) or "") in ("readlines", "copy", "splitlines")}
+        line_lists |= {p_ for p_ in fn.params() if "lines" in p_}
+        for b in walk_no_nested(fn.node):
+            if not (isinstance(b, ast.BinOp) and isinstance(b.op, ast.Add)):
+                continue
+            par = ctx.parents(fn).get(id(b))
+            if isinstance(par, ast.BinOp) and isinstance(par.op, ast.Add) and par.left is b:
+                continue  # not the top of the chain
+            ops = []
+            cur = b
+            while isinstance(cur, ast.BinOp) and isinstance(cur.op, ast.Add):
+                ops.insert(0, cur.right)
+                cur = cur.left
+            ops.insert(0, cur)
+            head = root_list(ops[0])
+            if head is None or len(ops) < 2:
+                continue
+            name, upper = head
+            local = ops[0].id if isinstance(ops[0], ast.Name) else name  # the name the head is known by in this function
+            src = name if name in line_lists else None
+            if src is None:
+                # a local bound to a slice / copy of a line list
+                v = r.single_assignments().get(name)
+                inner = root_list(v) if v is not None else None
+                if inner is not None and inner[0] in line_lists:
+                    src, upper = inner[0], inner[1]
+            if src is None:
+                continue
+            tail = tail_of(ops[-1], src) if len(ops) >= 3 else None
+            if len(ops) >= 3 and tail is None:
+                continue
+            if tail is not None and tail != upper:
+                continue  # `X[:k] + new + X[k + 1:]` replaces line k: the line before it is followed by another line, hence terminated
+            n += 1
+            # the ensure: `if not <elem>.endswith("\n")` whose body extends that element
+            ensured = False
+            for t in walk_no_nested(fn.node):
+                if isinstance(t, ast.If) and isinstance(t.test, ast.UnaryOp) and isinstance(t.test.op, ast.Not) and isinstance(t.test.operand, ast.Call) \
+                        and last_attr(t.test.operand.func) == "endswith" and t.test.operand.args and isinstance(t.test.operand.args[0], ast.Constant) and t.test.operand.args[0].value == "\n":
+                    subj = t.test.operand.func.value
+                    if isinstance(subj, ast.Subscript) and isinstance(subj.value, ast.Name) and subj.value.id in (name, src, local):
+                        if any(isinstance(x, (ast.AugAssign, ast.Assign)) and unparse(x.target if isinstance(x, ast.AugAssign) else x.targets[0]) == unparse(subj) for st in t.body for x in ast.walk(st)):
+                            ensured = True
+            rep.check(rule_id, fn.qname, fn.loc(b), ensured, f"insert-after:{src}",
+                      f"`{unparse(b)[:70]}` places new lines after existing lines of `{src}` without making sure the line before them ends with a newline: "
+                      "in a manifest without a final newline the new requirement is glued to the last one")
+    if n < 2:
+        raise AnalysisError(f"only {n} line insertions found in the line-surgery writers (requirements.txt, setup.cfg)")
+
+
 def rule_requirement_constants(ctx, rep):
     from .c01 import QUOTES
 
@@ -401,6 +484,7 @@ def check(ctx, rep):
     rule_manifest_siblings(ctx, rep)
     rule_manifest_no_overwrite(ctx, rep)
     rule_decode_handled(ctx, rep)
+    rule_insert_after_terminated(ctx, rep)
     rule_shared(ctx, rep)
     from .c12 import MANIFEST_MODULES, rule_every_input_read
 
